@@ -115,7 +115,8 @@ class Assume(object):
     atoms: 'intParam(P)' -> enumerator short name (or '!=X'); 'boolParam(P)' -> bool; plain rendered bool
     expressions (fields, params, 'x != nullptr') -> bool."""
 
-    def __init__(self, ints=None, bools=None, atoms=None, not_ints=None):
+    def __init__(self, ints=None, bools=None, atoms=None, not_ints=None, hook=None):
+        self.hook = hook              # optional callable(node, rendered text) -> True/False/None
         self.ints = ints or {}        # 'SYNCMODE' -> 'SYNCMODE_AUTO'
         self.not_ints = not_ints or {}  # 'SYNCMODE' -> set of excluded enumerators
         self.bools = bools or {}      # 'LIFTING' -> True
@@ -133,6 +134,10 @@ class Assume(object):
         txt = render(n)
         if txt in self.atoms:
             return self.atoms[txt]
+        if self.hook is not None:
+            v = self.hook(n, txt)
+            if v is not None:
+                return v
         if k == 'UnaryOperator' and n.o == '!':
             v = self.eval(n.kids[0])
             return None if v is None else (not v)
@@ -460,3 +465,147 @@ class MustSummaries(object):
         g = Graph(fn, self.assume)
         ok, path = g.must_pass(lambda n: self.node_is_effect(n, self.depth))
         return ok, (g.path_lines(path) if path else None)
+
+
+# ------------------------------------------------------------------------------------------------
+# must-pass-through with the 'a reached loop executes its body' convention, reachable events, switch arms
+
+def loop_hit(fn, pred):
+    """ids of loop statements whose subtree contains a node satisfying pred"""
+    out = set()
+    for n in fn.nodes:
+        if n.k in ('ForStmt', 'WhileStmt', 'DoStmt', 'CXXForRangeStmt'):
+            if any(pred(x) for x in n.walk()):
+                out.add(n.i)
+    return out
+
+
+def must(fn, assume, pred, loops=True):
+    g = Graph(fn, assume)
+    if loops:
+        lh = loop_hit(fn, pred)
+        nodes = fn.nodes
+
+        def p2(n):
+            return pred(n)
+        hit_loop_blocks = set(b.id for b in g.blocks.values() if b.t in lh)
+        ok, path = must_pass_blocks(g, g.blocks_with(pred) | hit_loop_blocks)
+    else:
+        ok, path = g.must_pass(pred)
+    return ok, (g.path_lines(path) if path else None), g
+
+
+def must_pass_blocks(g, hit):
+    start, to = g.entry, g.exit
+    if start in hit:
+        return True, None
+    prev = {start: None}
+    q = [start]
+    while q:
+        b = q.pop(0)
+        if b == to:
+            path = []
+            while b is not None:
+                path.append(b)
+                b = prev[b]
+            return False, path[::-1]
+        for s in g.succ[b]:
+            if s not in prev and s not in hit:
+                prev[s] = b
+                q.append(s)
+    return True, None
+
+
+def reachable_events(fn, assume, pred):
+    """nodes satisfying pred that lie in blocks reachable from the entry under the assumption"""
+    g = Graph(fn, assume)
+    r = g.reach(g.entry)
+    out = []
+    nodes = fn.nodes
+    for b in r:
+        for e in g.blocks[b].e:
+            if pred(nodes[e]):
+                out.append(nodes[e])
+    return out
+
+
+
+def case_arm_nodes(f, case):
+    """all nodes executed in a switch arm: the case's sub-statement and the following sibling statements up to the next
+    case/default label of the same compound"""
+    out = list(case.walk())
+    par = case.parent
+    if par is not None and par.k == 'CompoundStmt':
+        ks = par.kids
+        idx = [k.i for k in ks].index(case.i)
+        for k in ks[idx + 1:]:
+            if k.k in ('CaseStmt', 'DefaultStmt'):
+                break
+            out.extend(k.walk())
+    # nested fallthrough: case A: case B: stmt  -> the sub statement is another CaseStmt (already walked)
+    return out
+
+
+def decision_table(fn):
+    """for a function that is an if-chain returning enumerators: list of (rendered condition, returned enumerator)"""
+    out = []
+    for n in fn.nodes:
+        if n.k == 'ReturnStmt' and n.c:
+            v = strip(n.kids[0])
+            conds = []
+            for a in fn.ancestors(n):
+                if a.k == 'IfStmt':
+                    c = a.kid('cond')
+                    # which branch?
+                    th = a.kid('then')
+                    inthen = th is not None and any(x.i == n.i for x in th.walk())
+                    conds.append(('' if inthen else '!') + render(c))
+            out.append((tuple(conds), render(v)))
+    return out
+
+
+
+
+def post_dominators(g):
+    """post-dominator sets over the blocks that can reach the normal exit"""
+    r = g.reach(g.exit, fwd=False)
+    pdom = {b: set(r) for b in r}
+    pdom[g.exit] = {g.exit}
+    changed = True
+    while changed:
+        changed = False
+        for b in r:
+            if b == g.exit:
+                continue
+            ss = [x for x in g.succ[b] if x in r]
+            if not ss:
+                continue
+            new = set.intersection(*[pdom[x] for x in ss]) | {b}
+            if new != pdom[b]:
+                pdom[b] = new
+                changed = True
+    return pdom
+
+
+def always_with(fn, pred_a, pred_b, assume=None):
+    """for every executed event A some event B is executed too (B dominates or post-dominates A; a loop whose body
+    contains B counts as B at its header).  Returns list of A nodes without companion."""
+    g = Graph(fn, assume)
+    nodes = fn.nodes
+    bblocks = g.blocks_with(pred_b)
+    lh = loop_hit(fn, pred_b)
+    bblocks |= set(b.id for b in g.blocks.values() if b.t in lh)
+    dom = g.dominators()
+    pdom = post_dominators(g)
+    out = []
+    reach = g.reach(g.entry)
+    for b in g.blocks.values():
+        if b.id not in reach:
+            continue
+        for e in b.e:
+            n = nodes[e]
+            if pred_a(n):
+                ok = bool(bblocks & dom.get(b.id, set())) or bool(bblocks & pdom.get(b.id, set()))
+                if not ok:
+                    out.append(n)
+    return out
